@@ -92,14 +92,58 @@ def managed_read_sweep(prog):
     return {"typed_reads": n, "unprotected": out, "count": len(out)}
 
 
+def isinstance_sweep(prog):
+    col = _Collect()
+    apiexist.check_isinstance_types(col, "sweep", prog, list(prog.all_functions()), "this path")
+    return {"isinstance_tests": col.n, "members_that_are_not_classes": col.items[:200], "count": len(col.items)}
+
+
+def used_after_loop_sweep(prog):
+    from .rules.c09 import used_after_loop
+    out = []
+    n = 0
+    for f in prog.all_functions():
+        if f.name != "__init__":
+            continue
+        n += 1
+        try:
+            ua = used_after_loop(f)
+        except Exception:
+            continue
+        for name, node, lp in ua:
+            out.append({"function": f.qualname, "name": name, "loc": f.loc(node)})
+    return {"constructors": n, "loop_values_used_after_the_loop": out[:200], "count": len(out)}
+
+
+def calculator_units_sweep(prog):
+    """classes anywhere in the package that keep a Hamiltonian: converting reads and their protection"""
+    from . import unitflow
+    out = []
+    n = 0
+    for c in sorted(prog.all_classes(), key=lambda c: c.qualname):
+        if ".tests." in c.qualname or ".wizard." in c.qualname or c.qualname.startswith("quantarhei.qm."):
+            continue
+        if not unitflow.hamiltonian_fields(prog, c)[1]:
+            continue
+        cr = unitflow.CalculatorReads(prog, c)
+        for fn, node, d, p in cr.sites:
+            n += 1
+            if p is None:
+                out.append({"class": c.qualname, "in": fn.short, "read": d, "loc": fn.loc(node)})
+    return {"reads_outside_quantarhei_qm": n, "unprotected": out[:200], "count": len(out)}
+
+
 SWEEPS = {
-    "C09": [("leaked_loop_variables_package_wide", leaked_loop_sweep)],
+    "C09": [("leaked_loop_variables_package_wide", leaked_loop_sweep),
+            ("constructor_loop_values_used_after_the_loop_package_wide", used_after_loop_sweep)],
     "C10": [("missing_apis_package_wide", api_sweep)],
     "C12": [("missing_apis_package_wide", api_sweep)],
     "C18": [("missing_apis_package_wide", api_sweep)],
     "C11": [("half_sided_transform_idiom_package_wide", hfft_sweep)],
     "C05": [("raw_unit_switch_calls_package_wide", unit_switch_sweep),
             ("typed_units_managed_reads_package_wide", managed_read_sweep)],
+    "C08": [("isinstance_members_package_wide", isinstance_sweep)],
+    "C02": [("converting_reads_of_classes_keeping_a_hamiltonian_outside_qm", calculator_units_sweep)],
     "C01": [("undefined_self_attributes_package_wide", attribute_sweep),
             ("calls_with_wrong_arguments_package_wide", arity_sweep)],
 }
